@@ -71,6 +71,9 @@ class EvalSignature:
     unordered: Dict[str, Dict[str, Poly]] = field(default_factory=dict)
     u_atoms: Dict[str, ast.AST] = field(default_factory=dict)  # U.a / U.b definitions
     sites: Dict[str, ast.AST] = field(default_factory=dict)
+    # how the alternatives of (part, kind) are selected: '' (single), 'conserved' (test on which child
+    # stays below the node), 'min' (the cheaper of the two assignments)
+    selectors: Dict[str, str] = field(default_factory=dict)
 
     def total(self, model: str) -> Dict[str, Dict[str, Poly]]:
         """Alternatives of reconciliation + labelling cost per kind for a model
@@ -209,8 +212,11 @@ def _conserved_test(test: ast.AST, hook: _EvalHook) -> Optional[str]:
     return None
 
 
-def _split_alternatives(fn: ast.AST, expr: ast.AST, at: ast.AST, hook: _EvalHook) -> Dict[str, ast.AST]:
-    """Expand `min(x, y)` and selections on 'which child is conserved' into named alternatives."""
+def _split_alternatives(fn: ast.AST, expr: ast.AST, at: ast.AST, hook: _EvalHook, selector: Optional[List[str]] = None) -> Dict[str, ast.AST]:
+    """Expand `min(x, y)` and selections on 'which child is conserved' into named alternatives.
+
+    `selector` (a list used as an out-parameter) receives 'conserved', 'min' or ''."""
+    selector = selector if selector is not None else []
     expr = inline(fn, expr, at)
     # (1) selection on the conserved child
     tests = []
@@ -233,6 +239,7 @@ def _split_alternatives(fn: ast.AST, expr: ast.AST, at: ast.AST, hook: _EvalHook
         for truth in (True, False):
             conserved = role if truth else ("b" if role == "a" else "a")
             out[f"T={conserved}"] = _subst_truth(expr, key, truth)
+        selector.append("conserved")
         return out
     # (2) min over two assignments
     mins = [s for s in ast.walk(expr) if isinstance(s, ast.Call) and dotted(s.func) == "min" and len(s.args) == 2]
@@ -251,7 +258,9 @@ def _split_alternatives(fn: ast.AST, expr: ast.AST, at: ast.AST, hook: _EvalHook
             if name in out:
                 name = "T=b" if name == "T=a" else "T=a"
             out[name] = _replace_node(expr, mins[0], arg)
+        selector.append("min")
         return out
+    selector.append("")
     return {"": expr}
 
 
@@ -308,9 +317,11 @@ def _evaluator_signature(prog: Program) -> EvalSignature:
             if kind is None:
                 continue
             hook = _EvalHook(cost_rec, node)
-            alts = _split_alternatives(cost_rec, node.value, node, hook)
+            sel: List[str] = []
+            alts = _split_alternatives(cost_rec, node.value, node, hook, sel)
             sig.rec[kind] = {name: Normaliser(hook).poly(e) for name, e in alts.items()}
             sig.sites[f"rec.{kind}"] = node
+            sig.selectors[f"rec.{kind}"] = sel[0]
     # --- labelling parts: accumulations per kind
     for fn, store in ((ordered, sig.ordered), (unordered, sig.unordered)):
         for node in walk_no_nested(fn):
@@ -325,12 +336,19 @@ def _evaluator_signature(prog: Program) -> EvalSignature:
                     role = _conserved_test(inline(fn, test, node), hook)
                     if role:
                         stmt_role = role if pol else ("b" if role == "a" else "a")
-                alts = _split_alternatives(fn, node.value, node, hook)
+                sel = []
+                alts = _split_alternatives(fn, node.value, node, hook, sel)
                 polys = {name: Normaliser(hook).poly(e) for name, e in alts.items()}
                 if stmt_role:
                     if set(polys) != {""}:
                         raise AnalysisError("evaluator: nested conserved-child selections")
                     polys = {f"T={stmt_role}": polys[""]}
+                    sel = ["conserved"]
+                part = "ordered" if fn is ordered else "unordered"
+                prev_sel = sig.selectors.get(f"{part}.{kind}")
+                if prev_sel is not None and prev_sel != sel[0]:
+                    raise AnalysisError(f"evaluator {fn.name}: {kind} alternatives selected in two different ways")
+                sig.selectors[f"{part}.{kind}"] = sel[0]
                 for name, pol in polys.items():
                     if name in store.setdefault(kind, {}):
                         store[kind][name] = store[kind][name] + pol
